@@ -89,6 +89,25 @@ namespace CDNS {
         explicit BlockTable() {}
 
         /**
+         * @brief Copy constructor. The index refers to the stored items by reference, so a copy
+         * needs an index of its own items (moving keeps the items in place, the index stays valid).
+         */
+        BlockTable(const BlockTable& other) : items_(other.items_) { rebuild_index(); }
+        BlockTable(BlockTable&& other) = default;
+
+        BlockTable& operator=(const BlockTable& other)
+        {
+            if ( this != &other )
+            {
+                items_ = other.items_;
+                rebuild_index();
+            }
+            return *this;
+        }
+
+        BlockTable& operator=(BlockTable&& other) = default;
+
+        /**
          * @brief Find if a key value is in the list
          * 
          * @param key the key value to search for.
@@ -209,6 +228,16 @@ namespace CDNS {
         }
 
     private:
+        /**
+         * @brief Build the index of the stored items from scratch.
+         */
+        void rebuild_index()
+        {
+            indexes_.clear();
+            for ( CDNS::index_t i = 0; i < items_.size(); i++ )
+                indexes_[KeyRef<K>(items_[i].key())] = i;
+        }
+
         /**
          * @brief Record the key to the latest item in the vector.
          * 
